@@ -1,17 +1,24 @@
-"""Run every translator; returns the list of refusal messages (empty = all Gen files regenerated)."""
+"""Run every translator module of this package (any module with a run() function, except common/run_all);
+returns the list of refusal messages (empty = all Gen files regenerated)."""
 import importlib
+import os
 import traceback
 
 from .common import Refuse
 
-TRANSLATORS = ["tags"]
+
+def modules():
+    here = os.path.dirname(os.path.abspath(__file__))
+    return sorted(f[:-3] for f in os.listdir(here) if f.endswith(".py") and f not in ("__init__.py", "common.py", "run_all.py"))
 
 
 def run():
     refusals = []
-    for name in TRANSLATORS:
+    for name in modules():
         try:
-            importlib.import_module("translator." + name).run()
+            m = importlib.import_module("translator." + name)
+            if hasattr(m, "run"):
+                m.run()
         except Refuse as e:
             refusals.append("%s: %s" % (name, e))
         except Exception as e:  # noqa -- fail closed
